@@ -273,7 +273,11 @@ def run(ctx) -> None:
     cond = norm_text(compr[0].generators[0].ifs[0]).replace(" ", "")
     gen = compr[0].generators[0]
     red_axes = {norm_text(c.args[1]) for _, c in reds}
-    okr = len(red_axes) == 1 and isinstance(gen.target, ast.Tuple) and cond == f"{gen.target.elts[1].id}notin{list(red_axes)[0]}"
+    # the filter variable is the loop variable that is not the kept element (which one walks over the axis numbers is
+    # decided by R-PAIRROLE)
+    fvars = [e.id for e in gen.target.elts if isinstance(e, ast.Name) and e.id != dotted(compr[0].elt)] \
+        if isinstance(gen.target, ast.Tuple) else []
+    okr = len(red_axes) == 1 and any(cond == f"{v}notin{list(red_axes)[0]}" for v in fvars)
     # the filter is applied only when the reduced axes are dropped
     in_body = [i for i in walk_no_nested(red.node) if isinstance(i, ast.If) and any(
         compr[0] is x for s in i.body for x in ast.walk(s))]
@@ -403,3 +407,722 @@ def run(ctx) -> None:
 def _sym(op: str) -> str:
     return {"truediv": "/", "sub": "-", "floordiv": "//", "pow": "**", "mod": "%", "matmul": "@", "add": "+",
             "mul": "*", "lshift": "<<", "rshift": ">>"}.get(op, op)
+
+
+# ======================================================================================================================
+# Mutation-sweep round: accounting rules (one metadata entry per dimension after indexing), operand roles of paired
+# loops, the fold over the concatenated axis, integer bounds of new-axis positions.
+# ======================================================================================================================
+from ..rules import listacct as la  # noqa: E402
+from ..terms import FlowNormalizer, Normalizer, Poly  # noqa: E402
+
+_SCALAR_TYPES = {"Number", "numbers.Number", "Integral", "numbers.Integral", "int", "np.integer", "numpy.integer",
+                 "Real", "numbers.Real"}
+_ENS_META = ("self.ensemble_axes_metadata", "self._ensemble_axes_metadata")
+_SIMPLE = (ast.Assign, ast.AugAssign, ast.AnnAssign, ast.Expr, ast.Return, ast.Delete, ast.Pass, ast.Assert)
+
+
+def _scalar_test(test: ast.AST):
+    """`isinstance(X, <scalar number type>)` (possibly negated) -> (X, positive?)."""
+    t, pos = la.strip_not(test)
+    if isinstance(t, ast.Call) and dotted(t.func) == "isinstance" and len(t.args) == 2 and not t.keywords:
+        ty = t.args[1]
+        names = {dotted(e) for e in (ty.elts if isinstance(ty, (ast.Tuple, ast.List)) else [ty])}
+        if names & _SCALAR_TYPES:
+            return t.args[0], pos
+    return None
+
+
+def _none_test(test: ast.AST):
+    """`X is None` / `X is not None` / `X == None` (possibly negated) -> (X, positive?)."""
+    t, pos = la.strip_not(test)
+    if isinstance(t, ast.Compare) and len(t.ops) == 1:
+        a, b = t.left, t.comparators[0]
+        for x, y in ((a, b), (b, a)):
+            if isinstance(y, ast.Constant) and y.value is None:
+                if isinstance(t.ops[0], (ast.Is, ast.Eq)):
+                    return x, pos
+                if isinstance(t.ops[0], (ast.IsNot, ast.NotEq)):
+                    return x, not pos
+    return None
+
+
+def _uncopy(e: ast.AST) -> ast.AST:
+    """x.copy() / copy(x) / deepcopy(x) / list(x) -> x."""
+    while True:
+        if isinstance(e, ast.Call) and isinstance(e.func, ast.Attribute) and e.func.attr == "copy" and not e.args \
+                and dotted(e.func.value) not in ("copy",):
+            e = e.func.value
+        elif isinstance(e, ast.Call) and dotted(e.func) in ("copy", "deepcopy", "copy.copy", "copy.deepcopy", "list",
+                                                            "tuple") and len(e.args) == 1 and not e.keywords:
+            e = e.args[0]
+        else:
+            return e
+
+
+def _per_axis_list(value: ast.AST) -> bool:
+    """Is `value` a list with exactly one entry per ensemble axis, in order (copies allowed)?"""
+    v = _uncopy(value)
+    if dotted(v) in _ENS_META:
+        return True
+    if isinstance(v, ast.List) and len(v.elts) == 1 and isinstance(v.elts[0], ast.Starred):
+        return dotted(_uncopy(v.elts[0].value)) in _ENS_META
+    if isinstance(v, ast.ListComp) and len(v.generators) == 1:
+        g = v.generators[0]
+        return not g.ifs and dotted(_uncopy(g.iter)) in _ENS_META and isinstance(g.target, ast.Name) and \
+            dotted(_uncopy(v.elt)) == g.target.id
+    return False
+
+
+def _deps(expr: ast.AST, executed) -> set[str]:
+    """Names an expression depends on, through the plain assignments executed on the same path."""
+    seen: set[str] = set()
+    work = [n.id for n in ast.walk(expr) if isinstance(n, ast.Name)]
+    while work:
+        v = work.pop()
+        if v in seen:
+            continue
+        seen.add(v)
+        for st in executed:
+            if isinstance(st, ast.Assign) and any(isinstance(t, ast.Name) and t.id == v for t in st.targets):
+                work += [n.id for n in ast.walk(st.value) if isinstance(n, ast.Name)]
+    return seen
+
+
+def _item_accounting(ctx, repo) -> None:
+    f = repo.method(ARR, "ArrayObject", "_get_ensemble_axes_metadata_items")
+    K = f.qualname
+    R = "R-ITEMCOUNT"
+    ctx.require(len(f.positional_params) == 2, f"{K}: expected (self, items)")
+    items = f.positional_params[1]
+    df = DataFlow(f.node)
+    rets = [r for r in walk_no_nested(f.node) if isinstance(r, ast.Return) and r.value is not None]
+    ctx.require(len(rets) == 1 and isinstance(rets[0].value, ast.Tuple) and len(rets[0].value.elts) == 2 and
+                all(isinstance(e, ast.Name) for e in rets[0].value.elts), f"{K}: expected `return <list>, <dict>`")
+    out = rets[0].value.elts[0].id
+    top = list(f.node.body)
+    # the validator hands None items (np.newaxis) through
+    val = repo.function(ARR, "_validate_array_items")
+    admits_none = any(_none_test(n) is not None for n in ast.walk(val.node) if isinstance(n, (ast.Compare, ast.UnaryOp))) \
+        or any(isinstance(n, ast.Call) and dotted(n.func) == "type" and len(n.args) == 1 and
+               isinstance(n.args[0], ast.Constant) and n.args[0].value is None for n in ast.walk(val.node))
+    ctx.require(admits_none, f"{val.qualname}: no treatment of None items found")
+
+    def simple_stmts(node):
+        return [s for s in ast.walk(node) if isinstance(s, _SIMPLE)]
+
+    loops = [l for l in top if isinstance(l, ast.For) and any(la.growth(s, out) for s in simple_stmts(l))]
+    ctx.require(len(loops) == 1, f"{K}: expected one top-level loop that fills the returned list, found {len(loops)}")
+    loop = loops[0]
+    before, after = top[:top.index(loop)], top[top.index(loop) + 1:]
+    header = df.cfg.node_of(loop).idx
+    # initialisation of the result list
+    inits = [s for b in before for s in simple_stmts(b) if la.growth(s, out)]
+    ctx.require(len(inits) == 1 and isinstance(inits[0], ast.Assign) and isinstance(inits[0].value, (ast.List, ast.Call))
+                and not getattr(inits[0].value, "elts", None) and not getattr(inits[0].value, "args", None)
+                and (isinstance(inits[0].value, ast.List) or dotted(inits[0].value.func) == "list")
+                and inits[0] in before, f"{K}: the returned list does not start empty")
+
+    # ---- operand roles of the main loop
+    roles = la.pairing(loop.target, loop.iter)
+
+    def is_items(e) -> bool:
+        e = la.strip_seq(e)
+        return isinstance(e, ast.Name) and e.id == items and all(d.kind == "param" for d in df.reaching(header, items))
+
+    def meta_list(e) -> Optional[str]:
+        e = la.strip_seq(e)
+        if not isinstance(e, ast.Name):
+            return None
+        strong = [d for d in df.defs if d.var == e.id and d.strong]
+        if len(strong) == 1 and strong[0].kind == "assign" and strong[0].value is not None and \
+                _per_axis_list(strong[0].value) and df.cfg.nodes[strong[0].node].ast in before:
+            return e.id
+        return None
+
+    item_vars = [v for v, r in roles.items() if r[0] == "elem" and is_items(r[1])]
+    meta_vars = [(v, meta_list(r[1])) for v, r in roles.items() if r[0] == "elem" and meta_list(r[1]) is not None]
+    ctx.require(len(item_vars) == 1 and len(meta_vars) == 1 and len(roles) == 2,
+                f"{K}: the loop is not `for .. in zip(<items>, <one entry per ensemble axis>)`")
+    item_var, (meta_var, L) = item_vars[0], meta_vars[0]
+
+    # ---- new axes: one placeholder entry inserted at the position of every None item
+    weak = [d for d in df.defs if d.var == L and not d.strong]
+    inserts = []
+    for d in weak:
+        st = df.cfg.nodes[d.node].ast
+        gs = la.growth(st, L) if isinstance(st, _SIMPLE) else [("other", st)]
+        ctx.require(all(g[0] == "insert" for g in gs) and gs, f"{K}: `{norm_text(st)[:60]}` changes the per-axis list in a "
+                    "way the analyser does not follow")
+        inserts.append(st)
+    main_none = [n for n in ast.walk(loop) if isinstance(n, (ast.Compare,)) and _none_test(n) is not None
+                 and dotted(_none_test(n)[0]) == item_var]
+    ctx.require(not main_none, f"{K}: the main loop treats None items itself (unsupported design)")
+    problems = []
+    n_none_paths = 0
+    if inserts:
+        nloops = [l for l in before if isinstance(l, ast.For) and any(s in inserts for s in simple_stmts(l))]
+        ctx.require(len(nloops) == 1 and all(any(s is i for s in simple_stmts(nloops[0])) for i in inserts),
+                    f"{K}: the insertions into the per-axis list are not in one loop before the main loop")
+        nl = nloops[0]
+        r2 = la.pairing(nl.target, nl.iter)
+        idx2 = [v for v, r in r2.items() if r[0] == "index" and is_items(r[1]) and (
+            r[2] is None or (isinstance(r[2], ast.Constant) and r[2].value == 0))]
+        it2 = [v for v, r in r2.items() if r[0] == "elem" and is_items(r[1])]
+        ctx.require(len(idx2) == 1 and len(it2) == 1, f"{K}: the insertion loop does not enumerate the items")
+
+        def pred_none(test):
+            t = _none_test(test)
+            return t[1] if t is not None and dotted(t[0]) == it2[0] else None
+
+        for conds, ex, end in la.body_paths(nl.body, lambda s: any(s is i for i in inserts)):
+            if end in ("raise",):
+                continue
+            ctx.require(end in (None, "continue"), f"{K}: the insertion loop can end early")
+            pol = la.polarity(conds, pred_none)
+            effects = [g for st in ex if isinstance(st, _SIMPLE) for g in la.growth(st, L)]
+            if pol is True:
+                n_none_paths += 1
+                if len(effects) != 1:
+                    problems.append(f"a None item inserts {len(effects)} entries into the per-axis list")
+                else:
+                    _, pos, elt = effects[0]
+                    if not (isinstance(pos, ast.Name) and pos.id == idx2[0]):
+                        problems.append(f"the entry of a None item is inserted at `{norm_text(pos)}`, not at the position "
+                                        "of that item")
+                    cls_ = repo.resolve_name(f.module, dotted(elt.func)) if isinstance(elt, ast.Call) and \
+                        dotted(elt.func) and "." not in dotted(elt.func) else None
+                    if not (getattr(cls_, "is_subclass_of", None) and cls_.is_subclass_of("AxisMetadata")):
+                        problems.append(f"the entry of a None item is `{norm_text(elt)[:40]}`, not a fresh axis-metadata object")
+            elif effects:
+                problems.append("an entry is inserted for an item that is not None")
+    if not inserts or (not problems and n_none_paths == 0):
+        problems.append("no entry is inserted into the per-axis list for a None item (np.newaxis): the new axis takes the "
+                        "metadata of the next ensemble axis and every later axis is described by its neighbour's metadata")
+    ctx.check(not problems, R, f"{K}:new axes", f.loc(inserts[0]) if inserts else f.where,
+              "every None item gets one fresh entry at its own position before items and entries are paired",
+              "; ".join(problems), key_detail="newaxis")
+
+    # ---- trailing (unindexed) axes
+    bulks, counter = [], None
+    for s in (x for a in after for x in simple_stmts(a)):
+        for g in la.growth(s, out):
+            ctx.require(g[0] == "bulk", f"{K}: `{norm_text(s)[:60]}` after the loop is not understood")
+            bulks.append((s, g[1]))
+    tail_problem = None
+    if not bulks:
+        tail_problem = ("after the indexed axes nothing is appended: the ensemble axes that the index expression does not "
+                        "mention keep their dimension in the array but lose their metadata entry")
+    else:
+        ctx.require(len(bulks) == 1, f"{K}: several bulk extensions after the loop")
+        s, e = bulks[0]
+        ctx.require(isinstance(e, ast.Subscript) and isinstance(e.slice, ast.Slice) and e.slice.upper is None and
+                    e.slice.step is None and e.slice.lower is not None and dotted(e.value) is not None,
+                    f"{K}: `{norm_text(e)[:60]}` is not a tail slice `<list>[k:]`")
+        if dotted(e.value) != L:
+            tail_problem = f"the tail is taken from `{norm_text(e.value)}`, not from the list that was paired with the items"
+        lo = e.slice.lower
+        if isinstance(lo, ast.Call) and dotted(lo.func) == "len" and len(lo.args) == 1 and is_items(lo.args[0]):
+            counter = None
+        elif isinstance(lo, ast.Name):
+            counter = lo.id
+            cinit = [d for d in df.defs if d.var == counter and df.cfg.nodes[d.node].ast in before]
+            ctx.require(len(cinit) == 1 and cinit[0].kind == "assign" and isinstance(cinit[0].value, ast.Constant)
+                        and cinit[0].value.value == 0 and not isinstance(cinit[0].value.value, bool),
+                        f"{K}: the tail start `{counter}` is not a counter initialised with 0")
+            ctx.require(not any(la.step(x, counter) is not None for a in after for x in simple_stmts(a)),
+                        f"{K}: the counter is changed after the loop")
+        else:
+            raise AnalysisError(f"{K}: tail start `{norm_text(lo)[:40]}` is neither len(items) nor a pass counter")
+
+    # ---- per-pass accounting of the main loop
+    def relevant(s):
+        return isinstance(s, _SIMPLE) and (bool(la.growth(s, out)) or (counter is not None and la.step(s, counter) is not None))
+
+    base_im = repo.method("abtem.core.axes", "AxisMetadata", "item_metadata")
+    im_item = base_im.positional_params[1]
+    from ..model import bind_args
+
+    subj_bad, scalar_bad, entry_bad, src_bad, call_bad, step_bad = [], [], [], [], [], []
+    n_paths = n_sel = 0
+    for conds, ex, end in la.body_paths(loop.body, relevant):
+        if end == "raise":
+            continue
+        ctx.require(end in (None, "continue"), f"{K}: a pass of the main loop can leave the loop early")
+
+        def pred_scalar(test):
+            t = _scalar_test(test)
+            if t is None:
+                return None
+            if dotted(t[0]) != item_var:
+                subj_bad.append(norm_text(test))
+            return t[1]
+
+        pol = la.polarity(conds, pred_scalar)
+        if pol == "infeasible":
+            continue
+        ctx.require(pol is not None, f"{K}: a pass of the main loop does not test whether the item is a scalar")
+        n_paths += 1
+        n, elts = la.count_added([s for s in ex if isinstance(s, _SIMPLE)], out)
+        if counter is not None:
+            stp = la.count_steps([s for s in ex if isinstance(s, _SIMPLE)], counter)
+            if stp != 1:
+                step_bad.append(stp)
+        if pol:
+            if n != 0:
+                scalar_bad.append(n)
+            for st in ex:
+                for c in ast.walk(st):
+                    if isinstance(c, ast.Call) and isinstance(c.func, ast.Attribute) and c.func.attr == "item_metadata":
+                        b = bind_args(c, base_im, skip_self=True)
+                        ok = dotted(c.func.value) == meta_var and im_item in b and item_var in _deps(b[im_item], ex) \
+                            and meta_var not in _deps(b[im_item], ex)
+                        if not ok:
+                            call_bad.append(norm_text(c)[:70])
+        else:
+            if n != 1:
+                entry_bad.append(n)
+            for e in elts:
+                if meta_var not in _deps(e, ex):
+                    src_bad.append(norm_text(e)[:50])
+                u = _uncopy(e)
+                for _ in range(3):  # a temporary assigned on the same path
+                    if isinstance(u, ast.Name):
+                        asg = [x for x in ex if isinstance(x, ast.Assign) and len(x.targets) == 1 and
+                               isinstance(x.targets[0], ast.Name) and x.targets[0].id == u.id]
+                        if len(asg) == 1:
+                            u = _uncopy(asg[0].value)
+                if isinstance(u, ast.Subscript) and dotted(u.value) == meta_var and dotted(u.slice) == item_var:
+                    n_sel += 1
+    ctx.require(n_paths >= 2, f"{K}: fewer than two kinds of pass through the main loop")
+    ctx.check(not subj_bad, R, f"{K}:scalar test", f.loc(loop),
+              "the scalar test is applied to the variable that walks over the items",
+              f"`{subj_bad[0] if subj_bad else ''}` tests the variable that walks over the axis-metadata entries, not the "
+              "index item: items and entries are paired in the wrong order", key_detail="subject")
+    ctx.check(not scalar_bad, R, f"{K}:integer item", f.loc(loop),
+              "an integer item (the dimension disappears) adds no metadata entry",
+              f"an integer item adds {scalar_bad[0] if scalar_bad else 0} metadata entries although NumPy removes the "
+              "dimension", key_detail="scalar-entries")
+    ctx.check(not entry_bad, R, f"{K}:slice or array item", f.loc(loop),
+              "a slice / index-array / None item (the dimension stays) adds exactly one metadata entry on every path",
+              f"a pass for a slice, index-array or None item adds {entry_bad[0] if entry_bad else 1} metadata entries "
+              "although NumPy keeps exactly one dimension: the object ends up with a different number of metadata "
+              "entries than dimensions", key_detail="entries")
+    ctx.check(not src_bad and (n_sel >= 1 or bool(entry_bad)), R, f"{K}:entry source", f.loc(loop),
+              "the entry added for an item is the paired axis metadata, indexed by that item",
+              (f"the added entry `{src_bad[0]}` does not derive from the paired axis metadata" if src_bad else
+               "no added entry is the paired axis metadata indexed by the item: the metadata of the selected items is "
+               "not carried along"), key_detail="source")
+    ctx.check(not call_bad, R, f"{K}:item_metadata call", f.loc(loop),
+              "item metadata is asked from the paired axis entry for the item",
+              f"`{call_bad[0] if call_bad else ''}` is not <paired axis entry>.item_metadata(<item>, ...)",
+              key_detail="item-call")
+    if tail_problem is None and step_bad:
+        tail_problem = (f"the tail of unindexed axes starts at `{counter}`, which advances by {step_bad[0]} instead of 1 "
+                        "per consumed item: the entries of axes that were already indexed are appended again (or "
+                        "trailing axes are skipped)")
+    ctx.check(tail_problem is None, R, f"{K}:trailing axes", f.loc(bulks[0][0]) if bulks else f.loc(rets[0]),
+              "the entries of the ensemble axes after the last item are carried over unchanged",
+              tail_problem or "", key_detail="tail")
+
+
+
+def _resolve_local(df: DataFlow, at: int, e: ast.AST, depth: int = 4) -> ast.AST:
+    """Follow single plain assignments of a local name."""
+    while depth and isinstance(e, ast.Name):
+        d = df.single_def(at, e.id)
+        if d is None or d.kind != "assign" or d.value is None:
+            break
+        e, at, depth = d.value, d.node, depth - 1
+    return e
+
+
+def _is_axis_numbers(df: DataFlow, at: int, e: ast.AST) -> bool:
+    """range(len(<ensemble shape / ensemble metadata>)), possibly through tuple()/list() and a local."""
+    v = la.strip_seq(_resolve_local(df, at, la.strip_seq(e)))
+    if isinstance(v, ast.Call) and dotted(v.func) == "range" and len(v.args) == 1 and not v.keywords:
+        a = v.args[0]
+        if isinstance(a, ast.Call) and dotted(a.func) == "len" and len(a.args) == 1:
+            return dotted(a.args[0]) in _ENS_META + ("self.ensemble_shape",) or dotted(
+                _resolve_local(df, at, a.args[0])) in _ENS_META + ("self.ensemble_shape",)
+    return False
+
+
+def _pair_roles(ctx, repo) -> None:
+    """R-PAIRROLE: _reduction's metadata filter and squeeze's length-one test."""
+    R = "R-PAIRROLE"
+    red = repo.method(ARR, "ArrayObject", "_reduction")
+    df = DataFlow(red.node)
+    comps = [(st, c) for st in walk_no_nested(red.node) if isinstance(st, ast.Assign)
+             for c in ast.walk(st.value) if isinstance(c, ast.ListComp) and c.generators[0].ifs]
+    ctx.require(len(comps) == 1 and len(comps[0][1].generators) == 1, f"{red.qualname}: metadata filter not found")
+    st, comp = comps[0]
+    at = df.cfg.node_of(st).idx
+    g = comp.generators[0]
+    roles = la.pairing(g.target, g.iter)
+    meta_v, idx_v = [], []
+    for v, r in roles.items():
+        if r[0] == "index" and (r[2] is None or (isinstance(r[2], ast.Constant) and r[2].value == 0)) and \
+                _per_axis_list(_resolve_local(df, at, r[1])):
+            idx_v.append(v)
+        elif r[0] == "elem" and _is_axis_numbers(df, at, r[1]):
+            idx_v.append(v)
+        elif r[0] == "elem" and _per_axis_list(_resolve_local(df, at, la.strip_seq(r[1]))):
+            meta_v.append(v)
+    ctx.require(len(meta_v) == 1 and len(idx_v) == 1, f"{red.qualname}: the filter does not walk over (axis metadata, "
+                "axis number) pairs")
+    tests = [c for i in g.ifs for c in ast.walk(i) if isinstance(c, ast.Compare) and len(c.ops) == 1
+             and isinstance(c.ops[0], (ast.In, ast.NotIn))]
+    ctx.require(len(tests) == 1, f"{red.qualname}: membership test of the filter not found")
+    elt = dotted(_uncopy(comp.elt))
+    ok = elt == meta_v[0] and dotted(tests[0].left) == idx_v[0]
+    ctx.check(ok, R, f"{red.qualname}:metadata filter", red.loc(comp),
+              "keeps the axis-metadata entries whose axis number is not reduced",
+              f"the filter keeps `{norm_text(comp.elt)}` (walking over "
+              f"`{norm_text(roles.get(elt, ('', comp.elt))[1])[:40]}`) and tests `{norm_text(tests[0].left)}` for membership "
+              "in the reduced axes: metadata entries and axis numbers are paired in the wrong order, the result carries "
+              "axis numbers instead of axis metadata", key_detail="filter")
+
+    sq = repo.method(ARR, "ArrayObject", "squeeze")
+    dfs = DataFlow(sq.node)
+    found = []
+    for st in walk_no_nested(sq.node):
+        if not isinstance(st, ast.Assign):
+            continue
+        for c in ast.walk(st.value):
+            if isinstance(c, (ast.ListComp, ast.GeneratorExp)) and len(c.generators) == 1:
+                try:
+                    r = la.pairing(c.generators[0].target, c.generators[0].iter)
+                except AnalysisError:
+                    continue
+                at = dfs.cfg.node_of(st).idx
+                lens = [v for v, x in r.items() if x[0] == "elem" and "shape" in norm_text(_resolve_local(dfs, at, x[1]))]
+                idxs = [v for v, x in r.items() if x[0] == "index"]
+                if len(lens) == 1 and len(idxs) == 1:
+                    found.append((c, lens[0], idxs[0]))
+    ctx.require(len(found) == 1, f"{sq.qualname}: the scan of the ensemble shape for length-one axes was not found")
+    comp, len_v, idx_v2 = found[0]
+    ctx.require(not any(isinstance(n, ast.UnaryOp) and isinstance(n.op, ast.Not) for n in ast.walk(comp)),
+                f"{sq.qualname}: negated selection predicate")
+    cmps = [c for c in ast.walk(comp) if isinstance(c, ast.Compare) and any(
+        isinstance(n, ast.Name) and n.id == len_v for n in ast.walk(c))]
+    ctx.require(len(cmps) >= 1, f"{sq.qualname}: no test of the axis length found")
+    bad = []
+    for c in cmps:
+        sides = [c.left] + c.comparators
+        one = len(c.ops) == 1 and isinstance(c.ops[0], ast.Eq) and any(
+            isinstance(x, ast.Constant) and x.value == 1 and not isinstance(x.value, bool) for x in sides) and any(
+            dotted(x) == len_v for x in sides)
+        if not one:
+            bad.append(norm_text(c))
+    mem = [c for c in ast.walk(comp) if isinstance(c, ast.Compare) and len(c.ops) == 1 and isinstance(c.ops[0], ast.In)]
+    if any(dotted(c.left) == len_v for c in mem):
+        bad.append(f"{norm_text(mem[0])} (the axis length is looked up among the requested axes)")
+    ctx.check(not bad, R, f"{sq.qualname}:length-one test", sq.loc(comp),
+              "an axis is squeezed only if its length equals one (and its number is requested)",
+              f"squeeze selects axes by `{bad[0] if bad else ''}`, not by `length == 1`: axes of length one stay, or "
+              "np.squeeze is asked to remove longer axes", key_detail="length-one")
+
+
+def _inline_locals(df: DataFlow, at: int, e: ast.AST) -> ast.AST:
+    """Copy of `e` with every local that has a single plain assignment replaced by its value (one level)."""
+    import copy as _copy
+
+    class T(ast.NodeTransformer):
+        def visit_Name(self, n):
+            d = df.single_def(at, n.id) if isinstance(n.ctx, ast.Load) else None
+            if d is not None and d.kind == "assign" and d.value is not None and not isinstance(
+                    df.cfg.nodes[d.node].ast.targets[0], (ast.Tuple, ast.List)):
+                return _copy.deepcopy(d.value)
+            return n
+
+    return ast.fix_missing_locations(T().visit(_copy.deepcopy(e)))
+
+
+def _seq_head(ctx, repo) -> None:
+    """R-SEQHEAD: stack()/concatenate() take type, device, laziness, metadata from an array that certainly exists."""
+    for fname in ("stack", "concatenate"):
+        fn = repo.function(ARR, fname)
+        arrays = fn.positional_params[0]
+        subs = [n for n in walk_no_nested(fn.node) if isinstance(n, ast.Subscript) and dotted(n.value) == arrays
+                and la._int_const(n.slice) is not None]
+        ctx.require(len(subs) >= 1, f"{fn.qualname}: no use of a fixed member of `{arrays}` found")
+        bad = [n for n in subs if la._int_const(n.slice) not in (0, -1)]
+        ctx.check(not bad, "R-SEQHEAD", f"{fn.qualname}:fixed member", fn.loc(bad[0]) if bad else fn.where,
+                  f"{len(subs)} uses of a fixed member of the sequence, all of the first (or last) one",
+                  f"`{norm_text(bad[0]) if bad else ''}` is used for the result's type / device / metadata / bounds: a sequence "
+                  f"with a single array (np.{fname}([a]) is legal) raises IndexError", key_detail="member")
+
+
+def _concat_fold(ctx, repo) -> None:
+    """R-FOLD: concatenate() folds the axis metadata of *all* arrays, first to last, each once."""
+    R = "R-FOLD"
+    cc = repo.function(ARR, "concatenate")
+    K = cc.qualname
+    arrays = cc.positional_params[0]
+    df = DataFlow(cc.node)
+    folds = []
+    for loop in (l for l in cc.node.body if isinstance(l, ast.For)):
+        for st in loop.body:
+            if isinstance(st, ast.Assign) and len(st.targets) == 1 and isinstance(st.targets[0], ast.Name) and \
+                    isinstance(st.value, ast.Call) and isinstance(st.value.func, ast.Attribute) and \
+                    st.value.func.attr == "concatenate" and len(st.value.args) == 1:
+                folds.append((loop, st))
+    ctx.require(len(folds) == 1, f"{K}: the fold over the axis metadata was not found")
+    loop, st = folds[0]
+    acc = st.targets[0].id
+    ctx.require(isinstance(loop.target, ast.Name), f"{K}: fold loop target")
+    h = loop.target.id
+    seeds = [d for d in df.reaching(df.cfg.node_of(loop).idx, acc) if d.node not in df.cfg.loop_body_nodes(df.cfg.node_of(loop).idx)]
+    ctx.require(len(seeds) == 1 and seeds[0].kind == "assign", f"{K}: the seed of the fold was not found")
+    seed = _inline_locals(df, seeds[0].node, seeds[0].value)
+    seed_idx = [n for n in ast.walk(seed) if isinstance(n, ast.Subscript) and dotted(n.value) == arrays]
+    ctx.require(len(seed_idx) == 1 and la._int_const(seed_idx[0].slice) is not None, f"{K}: the seed is not taken from one "
+                "array of the sequence")
+    j = la._int_const(seed_idx[0].slice)
+    it = _resolve_local(df, df.cfg.node_of(loop).idx, loop.iter)
+    ctx.require(isinstance(it, ast.Subscript) and dotted(it.value) == arrays and isinstance(it.slice, ast.Slice)
+                and it.slice.upper is None and it.slice.step is None, f"{K}: the fold does not run over `{arrays}[k:]`")
+    c = la._int_const(it.slice.lower) if it.slice.lower is not None else 0
+    ctx.require(c is not None, f"{K}: fold start")
+    ctx.check(j == 0 and c == 1, R, f"{K}:every array once", cc.loc(loop),
+              "seed = first array, fold over the rest: every array contributes its axis metadata exactly once, in order",
+              f"the fold starts from `{arrays}[{j}]` and continues with `{arrays}[{c}:]`: "
+              + ("an array contributes its axis values twice and the first one not at all" if j >= c else
+                 "arrays are left out") + " while the data of all arrays is concatenated", key_detail="partition")
+
+    import copy as _copy
+    seed_copy = _copy.deepcopy(seed)
+    target_sub = [n for n in ast.walk(seed_copy) if isinstance(n, ast.Subscript) and dotted(n.value) == arrays][0]
+
+    class _Sub2(ast.NodeTransformer):
+        def visit_Subscript(self, n):
+            if n is target_sub:
+                return ast.Name(id=h, ctx=ast.Load())
+            return self.generic_visit(n)
+
+    want = norm_text(_Sub2().visit(seed_copy))
+    got = norm_text(st.value.args[0])
+    ok = dotted(st.value.func.value) == acc and got == want
+    ctx.check(ok, R, f"{K}:same entry, in order", cc.loc(st),
+              "accumulated.concatenate(<the same axis entry of the next array>)",
+              f"`{norm_text(st.value)[:80]}` is not <accumulated>.concatenate({want}): the values are joined in another "
+              "order than the data, or another axis entry is joined", key_detail="order")
+    # the data of *all* arrays is concatenated
+    lists = [c_ for c_ in walk_no_nested(cc.node) if isinstance(c_, ast.Call) and (call_name(c_) or "").endswith(".concatenate")
+             and c_.args and isinstance(c_.args[0], (ast.ListComp, ast.GeneratorExp))]
+    ctx.require(len(lists) >= 1, f"{K}: data concatenation not found")
+    whole = all(dotted(la.strip_seq(c_.args[0].generators[0].iter)) == arrays and not c_.args[0].generators[0].ifs
+                for c_ in lists)
+    ctx.check(whole, R, f"{K}:all data", cc.loc(lists[0]), "the data of every array is concatenated",
+              "the data that is concatenated is not that of the whole sequence", key_detail="data")
+
+
+def _cmp_poly(nz, cmp_: ast.Compare):
+    """Compare over integers -> polynomial P with (compare true  <=>  P >= 0); None if not an ordering."""
+    if len(cmp_.ops) != 1:
+        return None
+    l, r = nz.norm(cmp_.left), nz.norm(cmp_.comparators[0])
+    op = cmp_.ops[0]
+    if isinstance(op, ast.GtE):
+        return l - r
+    if isinstance(op, ast.Gt):
+        return l - r - Poly.const(1)
+    if isinstance(op, ast.LtE):
+        return r - l
+    if isinstance(op, ast.Lt):
+        return r - l - Poly.const(1)
+    return None
+
+
+def _expr(text: str) -> ast.AST:
+    return ast.parse(text, mode="eval").body
+
+
+def _axis_ranges(ctx, repo) -> None:
+    """R-AXISRANGE: admissible positions of a new axis (expand_dims, stack) and the operand roles of normalize_axes."""
+    R = "R-AXISRANGE"
+    from ..model import bind_args
+
+    ed = repo.method(ARR, "ArrayObject", "expand_dims")
+    df = DataFlow(ed.node)
+    guards = []
+    for i in walk_no_nested(ed.node):
+        if isinstance(i, ast.If) and any(isinstance(s, ast.Raise) for s in i.body) and isinstance(i.test, ast.Call) \
+                and dotted(i.test.func) == "any" and len(i.test.args) == 1 and \
+                isinstance(i.test.args[0], (ast.GeneratorExp, ast.ListComp)):
+            ge = i.test.args[0]
+            if len(ge.generators) == 1 and not ge.generators[0].ifs and isinstance(ge.generators[0].target, ast.Name) \
+                    and isinstance(ge.generators[0].iter, ast.Name) and isinstance(ge.elt, ast.Compare):
+                guards.append((i, ge))
+    ctx.require(len(guards) == 1, f"{ed.qualname}: the range guard on the new-axis positions was not found")
+    gif, ge = guards[0]
+    X, a = ge.generators[0].iter.id, ge.generators[0].target.id
+    nz = FlowNormalizer(df, df.cfg.node_of(gif).idx)
+    nz.no_inline = {X, a}
+    P = _cmp_poly(nz, ge.elt)
+    ctx.require(P is not None, f"{ed.qualname}: range guard is not an ordering comparison")
+    E = Poly.atom("#ensemble-axes")
+    B = Poly.atom("#base-axes")
+
+    def canon(p: Poly) -> Poly:
+        m = {}
+        for text, val in (("len(self.ensemble_shape)", E), ("len(self.ensemble_axes_metadata)", E),
+                          ("len(self._ensemble_axes_metadata)", E), ("len(self.base_shape)", B),
+                          ("len(self.base_axes_metadata)", B), ("len(self.shape)", E + B),
+                          ("len(self.array.shape)", E + B), ("len(self._array.shape)", E + B),
+                          ("len(self.axes_metadata)", E + B)):
+            for at_ in Normalizer().norm(_expr(text)).atoms():
+                m[at_] = val
+        return p.subst(m)
+
+    N = Normalizer().norm(_expr(f"len({X})"))
+    want = Poly.atom(a) - E - N
+    got = canon(P)
+    ctx.check(got == want, R, f"{ed.qualname}:new-axis positions", ed.loc(gif),
+              "raises exactly for positions >= (number of ensemble axes + number of new axes)",
+              f"the guard raises for `{norm_text(ge.elt)}`, i.e. when {got.key()} >= 0; positions of new axes in the result "
+              f"are admissible iff they are < (ensemble axes + new axes), i.e. the guard must be {want.key()} >= 0: "
+              "otherwise a new axis lands among the base axes (data and metadata list disagree) or a legal position is "
+              "refused", key_detail="range")
+
+    # operands of normalize_axes
+    na = repo.function("abtem.core.utils", "normalize_axes")
+    for mname in ("expand_dims", "squeeze"):
+        fn = repo.method(ARR, "ArrayObject", mname)
+        dff = DataFlow(fn.node)
+        user_axis = fn.positional_params[1]
+        for c in walk_no_nested(fn.node):
+            if isinstance(c, ast.Call) and call_name(c) == "normalize_axes":
+                b = bind_args(c, na)
+                ctx.require(set(b) >= set(na.positional_params[:2]), f"{fn.qualname}: normalize_axes call not understood")
+                axes_e, shape_e = b[na.positional_params[0]], b[na.positional_params[1]]
+                stn = dff.cfg.node_of(_stmt_of(fn.node, c)).idx
+                sl = dff.backward_slice(stn, axes_e)
+                ok = user_axis in sl.params and (dotted(shape_e) or "").endswith("shape") and \
+                    user_axis not in dff.backward_slice(stn, shape_e).params
+                ctx.check(ok, R, f"{fn.qualname}:normalize_axes operands", fn.loc(c),
+                          f"normalize_axes(axes <- the `{user_axis}` argument, shape <- {norm_text(shape_e)})",
+                          f"`{norm_text(c)}` passes `{norm_text(axes_e)}` as the axes and `{norm_text(shape_e)}` as the shape",
+                          key_detail="normalize-operands")
+
+    stf = repo.function(ARR, "stack")
+    ctx.require(len(stf.positional_params) == 3, f"{stf.qualname}: expected (arrays, axis_metadata, axis)")
+    arrays, axis = stf.positional_params[0], stf.positional_params[2]
+    dfs = DataFlow(stf.node)
+    Es = Poly.atom("#ensemble-axes-of-first")
+    A = Poly.atom(axis)
+    seen = 0
+    for n in walk_no_nested(stf.node):
+        tests = []
+        if isinstance(n, ast.Assert):
+            tests = [(n.test, False)]
+        elif isinstance(n, ast.If) and n.body and isinstance(n.body[0], ast.Raise) and not n.orelse:
+            tests = [(n.test, True)]
+        for t, raising in tests:
+            t, pos = la.strip_not(t)
+            if not (isinstance(t, ast.Compare) and any(isinstance(x, ast.Name) and x.id == axis for x in ast.walk(t))):
+                continue
+            nz2 = FlowNormalizer(dfs, dfs.cfg.node_of(n).idx)
+            nz2.no_inline = {axis, arrays}
+            P = _cmp_poly(nz2, t)
+            if P is None:
+                continue
+            if raising == pos:  # P >= 0 is the *refusing* condition: accept iff -P-1 >= 0
+                P = -P - Poly.const(1)
+            m = {}
+            for text in (f"len({arrays}[0].ensemble_shape)", f"len({arrays}[0].ensemble_axes_metadata)"):
+                for at_ in Normalizer().norm(_expr(text)).atoms():
+                    m[at_] = Es
+            P = P.subst(m)
+            seen += 1
+            ok = P in (A, Es - A)
+            side = "lower" if P.atoms() <= A.atoms() else "upper"
+            ctx.check(ok, R, f"{stf.qualname}:{side} bound of the stacking axis", stf.loc(n),
+                      "accepts 0 <= axis <= number of ensemble axes of the first array",
+                      f"`{norm_text(t)}` accepts the stacking axis iff {P.key()} >= 0; the admissible positions are "
+                      f"0 <= {axis} <= len({arrays}[0].ensemble_shape) (the new axis may come first or directly before the "
+                      "base axes; only the first array is certain to exist)", key_detail="bound")
+    if not seen:
+        ctx.info(R, f"{stf.qualname}:axis bound", stf.where, "no explicit bound on the stacking axis")
+
+
+class _OnlyOrdinalConcat:
+    """Proxy: run C35's rules, keep only R-ORDINAL instances of OrdinalAxis.concatenate."""
+
+    def __init__(self, ctx):
+        self._ctx = ctx
+
+    def __getattr__(self, name):
+        return getattr(self._ctx, name)
+
+    @staticmethod
+    def _keep(rule, construct):
+        return rule == "R-ORDINAL" and construct.startswith("abtem.core.axes.OrdinalAxis.concatenate")
+
+    def rule(self, name, text):
+        if name == "R-ORDINAL":
+            self._ctx.rule(name, "(shared with C35; concatenate() joins the axis entries with OrdinalAxis.concatenate) " + text)
+
+    def undecided(self, text):
+        return None
+
+    def assume(self, text):
+        return None
+
+    def check(self, cond, rule, construct, *a, **k):
+        return self._ctx.check(cond, rule, construct, *a, **k) if self._keep(rule, construct) else cond
+
+    def violation(self, rule, construct, *a, **k):
+        if self._keep(rule, construct):
+            self._ctx.violation(rule, construct, *a, **k)
+
+    def ok(self, rule, construct, *a, **k):
+        if self._keep(rule, construct):
+            self._ctx.ok(rule, construct, *a, **k)
+
+    def info(self, rule, construct, *a, **k):
+        return None
+
+
+_inner_run_c29_sweep = run
+
+
+def run(ctx) -> None:  # noqa: F811
+    ctx.rule("R-ITEMCOUNT", "indexing leaves exactly one metadata entry per remaining dimension (NumPy: an integer item "
+             "removes the dimension, a slice / index array keeps it, None adds one, unmentioned trailing axes stay): in "
+             "_get_ensemble_axes_metadata_items every None item gets one fresh entry at its own position before items "
+             "and per-axis entries are paired; on every control path of a pass (including the except arm) an integer "
+             "item adds no entry and asks <paired entry>.item_metadata(<item>), any other item adds exactly one entry "
+             "derived from the paired entry; the tail list[k:] of the same list is appended with k = number of passes. "
+             "Variables are identified by the operand they iterate over, not by name")
+    ctx.rule("R-PAIRROLE", "where metadata entries and axis numbers (or axis lengths) are walked in parallel, each "
+             "variable is used in the role of the operand it iterates over: _reduction keeps the *metadata* entries "
+             "whose *axis number* is not among the reduced axes; squeeze selects an axis iff its *length* equals one "
+             "and its *number* is requested")
+    ctx.rule("R-FOLD", "concatenate() joins the axis metadata of all arrays like their data: seed = entry of the first "
+             "array, then accumulated.concatenate(entry of the next array) over arrays[1:], every array exactly once and "
+             "in sequence order; the data of the whole sequence is concatenated")
+    ctx.rule("R-AXISRANGE", "positions of new axes are admissible exactly when the axis lands among the ensemble axes: "
+             "expand_dims refuses position a iff a >= ensemble axes + new axes; stack accepts 0 <= axis <= ensemble "
+             "axes of the first array (integer comparisons are compared as polynomials, `x > y` = `x >= y + 1`); "
+             "normalize_axes receives the user's axis argument as axes and a shape as shape")
+    from ..rules import isinst
+    ctx.rule("R-ISINSTANCE", isinst.__doc__.split("—", 1)[1])
+    ao_ = ctx.repo.cls(ARR, "ArrayObject")
+    funcs = [f for defs in ao_.methods.values() for f in defs] + [ctx.repo.function(ARR, n) for n in (
+        "stack", "concatenate", "swapaxes", "moveaxis", "_validate_array_items", "_expand_dims")]
+    funcs += [f for c in ctx.repo.module("abtem.core.axes").classes.values() for defs in c.methods.values() for f in defs]
+    n_is = isinst.check(ctx, ctx.repo, funcs)
+    ctx.require(n_is >= 10, f"R-ISINSTANCE examined only {n_is} isinstance tests")
+    _item_accounting(ctx, ctx.repo)
+    _pair_roles(ctx, ctx.repo)
+    _concat_fold(ctx, ctx.repo)
+    _axis_ranges(ctx, ctx.repo)
+    ctx.rule("R-SEQHEAD", "stack() and concatenate() accept a sequence with a single array like NumPy does: whenever "
+             "they read a fixed member of the sequence (for the class, the array module, laziness, metadata, the axis "
+             "bound) it is the first (or last) one, the only one that certainly exists")
+    _seq_head(ctx, ctx.repo)
+    from . import c35 as _c35
+    _c35.run(_OnlyOrdinalConcat(ctx))
+    _inner_run_c29_sweep(ctx)
